@@ -487,6 +487,9 @@ func propC08(c *Check) {
 	ruleR08_6(c)
 	ruleR08_7(c)
 	ruleR08_8(c)
+	// recovery also has to find the right read timestamp: a max version computed too low after
+	// WAL replay hides acknowledged commits
+	ruleR11_3(c)
 }
 
 // ---- C09 ----
